@@ -9,6 +9,21 @@ import idcommon as ic
 from common import NCPU, NSHARDS, shard_hashseed, drive, run_parallel, seed
 
 
+def overlapping(nodes):
+    """Domain configurations whose experiment set Z and surrogate-outcome set W overlap (a variable that is both
+    intervened on and recorded in the source): IDGen's DomainConfigs keeps Z and W disjoint, these are offered on top.
+    Inputs only - the derived selection diagram and the truth are computed by TLC (TV.tla PopTag / TransportNodes)."""
+    import itertools as itt
+    nodes = sorted(nodes)
+    out = []
+    for states in itt.product(range(4), repeat=len(nodes)):    # 0 none, 1 Z only, 2 W only, 3 both
+        if 3 in states:
+            z = [n for n, s_ in zip(nodes, states) if s_ in (1, 3)]
+            w = [n for n, s_ in zip(nodes, states) if s_ in (2, 3)]
+            out.append([z, w])
+    return out
+
+
 def problems(wd, tier, rng):
     """TLC-generated graphs x queries x domain configurations (IDGen mode trso)."""
     g3 = ic.gen(wd, "A3", "trso")[0]
@@ -21,6 +36,9 @@ def problems(wd, tier, rng):
         items.append({"g": it["g"], "gid": f"A3-{gi}-none", "qs": qs, "doms": [], "orders": 2})
         for di, d in enumerate(doms if not q else rng.sample(doms, 6)):
             items.append({"g": it["g"], "gid": f"A3-{gi}-d{di}", "qs": qs, "doms": [d], "orders": 1})
+        ov = overlapping(it["g"]["n"])
+        for di, d in enumerate(rng.sample(ov, 5 if q else 20)):
+            items.append({"g": it["g"], "gid": f"A3-{gi}-o{di}", "qs": qs if not q else rng.sample(qs, 8), "doms": [d], "orders": 1})
         for k in range(1 if q else 4):
             d2 = rng.sample(doms, 2)
             items.append({"g": it["g"], "gid": f"A3-{gi}-p{k}", "qs": qs if not q else rng.sample(qs, 6), "doms": d2, "orders": 3})
@@ -32,6 +50,8 @@ def problems(wd, tier, rng):
         for k in range(3 if q else 6):
             nd = 1 + (k % 3 if not q else k % 2)
             items.append({"g": it["g"], "gid": f"A4-{gi}-c{k}", "qs": rng.sample(qs, 10), "doms": rng.sample(doms, nd), "orders": 2 if nd >= 2 else 1})
+        ov = overlapping(it["g"]["n"])
+        items.append({"g": it["g"], "gid": f"A4-{gi}-o", "qs": rng.sample(qs, 10), "doms": rng.sample(ov, 1), "orders": 1})
     return items, [g3, g4]
 
 
